@@ -145,6 +145,8 @@ def episode(prop, mon, subj, rng, nsteps, acc):
                 pool.pop(rng.randrange(len(pool)))
         if prop == "C06" and rng.random() < 0.03:
             mon.synthetic(subj, rng, 4)
+        if prop in ("C04", "C13") and rng.random() < 0.02:
+            mon.fresh_initial_state(subj)
         ended = T is not None and (T.done or T.trunc)
         if (ended and stop_on_end) or rng.random() < p_reset:
             for _ in range(1 + (rng.random() < 0.1)):   # reset (twice)
